@@ -342,23 +342,34 @@ func checkID(c idCase) (v *mc.Viol, class string) {
 	nonce := mc.Fill(seedBase, "nonce-"+c.label(), 32)
 
 	if c.Entry == 0 {
-		var got []byte
+		var got, again []byte
 		if p := mc.Catch(func() {
+			var id func() []byte
 			switch c.T {
 			case 1:
-				got = px.NewW1(c.Key).Issuer.TokenKeyID()
+				id = px.NewW1(c.Key).Issuer.TokenKeyID
 			case 2:
-				got = px.NewW2(c.Key).Issuer.TokenKeyID()
+				id = px.NewW2(c.Key).Issuer.TokenKeyID
 			case 3:
-				got = px.NewW3(c.Key).Issuer.TokenKeyID()
+				id = px.NewW3(c.Key).Issuer.TokenKeyID
 			case 5:
-				got = px.NewW5(c.Key).Issuer.TokenKeyID()
+				id = px.NewW5(c.Key).Issuer.TokenKeyID
 			}
+			first := id()
+			got = append([]byte{}, first...)
+			// the caller owns what it was handed: it wipes / reuses the returned slice, then asks again
+			for i := range first {
+				first[i] = 0
+			}
+			again = id()
 		}); p != "" {
 			return bad(fmt.Sprintf("type%d TokenKeyID panics", c.T), p)
 		}
 		if !bytes.Equal(got, want) {
 			return bad(fmt.Sprintf("type%d issuer TokenKeyID is not SHA-256 of the serialized public key", c.T), fmt.Sprintf("got %x want %x", got, want))
+		}
+		if !bytes.Equal(again, want) {
+			return bad(fmt.Sprintf("type%d issuer TokenKeyID changes after the caller overwrote a previously returned id", c.T), fmt.Sprintf("second call %x want %x", again, want))
 		}
 		return nil, fmt.Sprintf("type%d issuer id ok", c.T)
 	}
